@@ -32,7 +32,7 @@ TRUSTED = ['Coq 8.16.1 kernel + vm_compute (no native_compute)',
 ASSUMPTIONS = ['node ids in node sets and connectivities are in range and components are < number of fields (NumPy raises IndexError otherwise; '
                'negative wrap-around indices are outside the model)',
                'the connectivity table is rectangular (one element type per mesh), as the Mesh type requires']
-RULE = ('cases: seeded structured meshes of order 1..3 through the real Mesh/FunctionSpace constructors and random connectivity tables with arbitrary '
+RULE = ('every fourth case is followed by a twin on the same mesh whose BC pattern is shifted by one node (same counts and shapes; the first DofManager is re-read afterwards); cases: seeded structured meshes of order 1..3 through the real Mesh/FunctionSpace constructors and random connectivity tables with arbitrary '
         'node numbering (3/6/10 nodes per element), 1..3 fields, BC lists drawn from {empty, full, full twice, single random set, overlapping '
         'sets, sets with repeated nodes, empty node set, random}; a case is non-trivial when 0 < #bc < #dofs or it is one of the named edge '
         'patterns; distinct = distinct (nNodes, dim, connectivity, mask) tuples')
@@ -103,6 +103,13 @@ def gen_cases(ctx):
         case['kind'] = KINDS[i % len(KINDS)] if i < 3 * len(KINDS) else r.choice(KINDS)
         case['bcseed'] = r.randrange(1 << 30)
         cases.append(case)
+        if i % 4 == 1:
+            cases.append(dict(case, twin=True))          # multi-call history: same mesh, shifted BC pattern of equal counts
+    # sizes beyond small-integer ranges on every run: > 255 unknowns through the model as well, > 32767 unknowns against the
+    # theorem conclusions only (the model evaluation of 2 million Hessian entries is out of reach for coqc)
+    cases.append(dict(src='structured', Nx=r.randrange(17, 20), Ny=r.randrange(17, 20), order=1, dim=1, kind='random', bcseed=r.randrange(1 << 30)))
+    cases.append(dict(src='structured', Nx=106, Ny=r.randrange(106, 110), order=1, dim=3, kind=r.choice(['single', 'random', 'repeated']),
+                      bcseed=r.randrange(1 << 30), nomodel=True))
     return cases
 
 
@@ -125,13 +132,17 @@ def build(case):
     pat = case.get('ebcs')
     if pat is None:
         pat = _bc_pattern(r, nNodes, case['dim'], case['kind'])
+    if case.get('twin'):
+        # history stream: the same mesh and the same BC pattern with every node n replaced by (n+1) mod nNodes -- a DIFFERENT
+        # mask with exactly the same counts and array shapes as the untwinned case that is constructed just before it
+        pat = [([(int(n) + 1) % nNodes for n in nodes], comp) for (nodes, comp) in pat]
     nodeSets = {}
     ebcs = []
     for k, (nodes, comp) in enumerate(pat):
         nodeSets['ns%d' % k] = onp.array(nodes, dtype=int)
         ebcs.append(('ns%d' % k, [int(x) for x in nodes], int(comp)))
     mesh = Mesh.mesh_with_nodesets(mesh, nodeSets)
-    if case['src'] == 'structured':
+    if case['src'] == 'structured' and not case.get('nomodel'):
         quad = QuadratureRule.create_quadrature_rule_on_triangle(degree=2)
         fs = FunctionSpace.construct_function_space(mesh, quad)
     else:
@@ -162,8 +173,23 @@ def run_impl(case):
     import numpy as onp
     import optimism  # noqa: F401
     from optimism import FunctionSpace
-    fs, nNodes, conns, ebcs = build(case)
     dim = case['dim']
+    ints = lambda a: [int(x) for x in onp.asarray(a).ravel()]
+
+    def snapshot(d, n):
+        probe = onp.arange(1, n + 1, dtype=float).reshape(d.isBc.shape)
+        return dict(isBc=ints(d.isBc), isUnknown=ints(d.isUnknown), unk=ints(d.unknownIndices), bc=ints(d.bcIndices), d2u=ints(d.dofToUnknown),
+                    rows=ints(d.HessRowCoords), cols=ints(d.HessColCoords), mask=ints(d.hessian_bc_mask), sizes=[int(d.get_bc_size()), int(d.get_unknown_size())],
+                    gu=ints(d.get_unknown_values(probe)), gb=ints(d.get_bc_values(probe)),
+                    cf=ints(d.create_field(d.get_unknown_values(probe), d.get_bc_values(probe))))
+
+    first = None
+    if case.get('twin'):
+        caseA = {k: v for k, v in case.items() if k != 'twin'}
+        fsA, nA, _, ebcsA = build(caseA)
+        dmA = FunctionSpace.DofManager(fsA, dim, [FunctionSpace.EssentialBC(nodeSet=name, component=comp) for (name, _, comp) in ebcsA])
+        first = (dmA, snapshot(dmA, nA * dim), nA * dim)
+    fs, nNodes, conns, ebcs = build(case)
     dm = FunctionSpace.DofManager(fs, dim, [FunctionSpace.EssentialBC(nodeSet=name, component=comp) for (name, _, comp) in ebcs])
     r = random.Random(case['bcseed'] ^ 0x1234)
     N = nNodes * dim
@@ -174,7 +200,6 @@ def run_impl(case):
     Uu2 = r.sample(range(5000, 5000 + 2 * N + 2), len(Uu))
     Ubc2 = r.sample(range(9000, 9000 + 2 * N + 2), len(Ubc))
     cscal = r.choice([0, 7])
-    ints = lambda a: [int(x) for x in onp.asarray(a).ravel()]
     out = dict(nNodes=nNodes, dim=dim, conns=conns, ebcs=ebcs, U=U, Uu2=Uu2, Ubc2=Ubc2, c=cscal)
     out['fieldShape'] = [int(x) for x in dm.fieldShape]
     out['isBc'] = ints(dm.isBc)
@@ -198,6 +223,11 @@ def run_impl(case):
     sl = slices_for(case, nNodes, dim, r)
     out['slices'] = [(name, pos, ints(dm.slice_unknowns_with_dof_indices(onp.array(Uu2, dtype=float), s))) for (name, s, pos) in sl]
     out['comp_slices'] = [(c, ints(dm.slice_unknowns_with_dof_indices(onp.array(Uu2, dtype=float), onp.s_[:, c]))) for c in range(dim)]
+    if first is not None:
+        # the first DofManager must be unaffected by the construction and use of the second one (no shared mutable state / caches)
+        again = snapshot(first[0], first[2])
+        out['first_changed'] = sorted(k for k in again if again[k] != first[1][k])
+        out['twin_same_counts'] = (first[1]['sizes'] == out['sizes'])
     return out
 
 
@@ -208,6 +238,8 @@ def conclusions(o):
     bad = []
     nN, dim, N = o['nNodes'], o['dim'], o['nNodes'] * o['dim']
     isBc, unk, bc, d2u = o['isBc'], o['unknownIndices'], o['bcIndices'], o['dofToUnknown']
+    if o.get('first_changed'):
+        bad.append('attributes/methods %s of a DofManager changed after another DofManager (same mesh, same counts) was constructed and used' % o['first_changed'])
     if o['fieldShape'] != [nN, dim] or len(isBc) != N:
         bad.append('isBc has %d entries, expected nNodes*dim = %d' % (len(isBc), N))
         return bad
@@ -385,6 +417,8 @@ def correspondence(ctx, model_ok, cases=None):
                         unknownIndices=o['unknownIndices'][:12], dofToUnknown=o['dofToUnknown'][:12]))
     if not model_ok:
         return
+    pairs = [(c, o) for c, o in zip(kept, outs) if not c.get('nomodel')]
+    kept, outs = [c for c, _ in pairs], [o for _, o in pairs]
     res = C.coq_eval(IMPORTS, [model_expr(o) for o in outs], 'C14', shard=ctx.n(6, 12), timeout=900)
     nm = 0
     for case, o, zs in zip(kept, outs, res):
